@@ -288,3 +288,8 @@ func OpenFile(p string) (*bufio.Reader, error) {
 	return bufio.NewReader(f), nil
 
 }
+
+// MaxDigits is the largest value accepted for --digits. Reports are rendered
+// with that many decimals per cell; an unbounded value makes a command format
+// billions of digits until memory is exhausted.
+const MaxDigits = 100
